@@ -3,6 +3,7 @@ import os, re, shutil, subprocess, tempfile, glob
 
 VERIF = os.path.dirname(os.path.dirname(os.path.dirname(os.path.abspath(__file__))))
 REPO = os.environ.get("VERIF_REPO", "/repo")
+EXTRA_MUTEXES = {}
 TYPES = [("int32", "Int32", "int32"), ("int64", "Int64", "int64"), ("uint32", "Uint32", "uint32"),
          ("uint64", "Uint64", "uint64"), ("string", "String", "string"), ("comparable", "Comparable", "Comparable")]
 TYPE_NAMES = [t[0] for t in TYPES]
@@ -48,7 +49,12 @@ def build(scratch_parent=None, shim=True, harness="vh", race=False):
             # that the tree mutex is never taken and the monitors decide
             has_tm[low] = bool(re.search(r"type %sTree struct \{[^}]*\bmutex\s+verifMutex" % cap, src))
             want = EXPECTED_MUTEXES if has_tm[low] else EXPECTED_MUTEXES - 1
-            if notes.get(low + ".go") != want:
+            if (notes.get(low + ".go") or 0) > want:
+                # more mutexes than the hooks know (e.g. a lock added for a shared cache): all of them are shimmed; the
+                # model knows nothing of the extra lock, so the lock traces will differ wherever it is taken
+                # (reported as a correspondence mismatch), while the monitors still judge the observable behaviour
+                EXTRA_MUTEXES[low] = notes.get(low + ".go") - want
+            elif notes.get(low + ".go") != want:
                 shutil.rmtree(tmp, ignore_errors=True)
                 raise ShadowError("%s.go declares %s sync.Mutex fields, the hooks expect %d (node, leaf%s)"
                                   % (low, notes.get(low + ".go"), want, ", tree header" if has_tm[low] else ""))
